@@ -83,7 +83,8 @@ func checkC09(c *Ctx) {
 		typ    string
 		origin string
 	}
-	origins := []string{"inline", "textstmt", "poryswitch", "format", "inlineformat", "poryswitch_default"}
+	// "pair": the text is the LAST of two inline texts of one command, after a companion of another type
+	origins := []string{"inline", "textstmt", "poryswitch", "format", "inlineformat", "poryswitch_default", "pair"}
 	var items []item
 	for i, t := range texts {
 		items = append(items, item{[]string{t.Content}, t.Type, origins[(i+int(c.Seed))%len(origins)]})
@@ -103,7 +104,7 @@ func checkC09(c *Ctx) {
 		for k := 0; k < n; k++ {
 			parts = append(parts, texts[r.Intn(len(texts))].Content)
 		}
-		items = append(items, item{parts, r.Pick([]string{"", "ascii", "braille", "custom"}), origins[r.Intn(4)]})
+		items = append(items, item{parts, r.Pick([]string{"", "ascii", "braille", "custom"}), []string{"inline", "textstmt", "poryswitch", "format", "pair"}[r.Intn(5)]})
 	}
 	var recs []map[string]interface{}
 	srcOf := map[string]string{}
@@ -131,6 +132,12 @@ func checkC09(c *Ctx) {
 				cmd := fmt.Sprintf("m%d_%d", base, k)
 				in := Inline{Kind: "text", Parts: it.parts, Type: it.typ, IsFmt: it.origin == "inlineformat"}
 				script.Body = append(script.Body, Stmt{K: "cmd", Toks: []string{cmd, "@inl0"}, Inl: []Inline{in}})
+				wants = append(wants, want{cmd: cmd, it: it})
+			case "pair":
+				cmd := fmt.Sprintf("m%d_%d", base, k)
+				comp := Inline{Kind: "text", Parts: []string{fmt.Sprintf("companion %d", k)}, Type: []string{"ascii", "braille", "custom", ""}[(k+base/perFile)%4]}
+				in := Inline{Kind: "text", Parts: it.parts, Type: it.typ}
+				script.Body = append(script.Body, Stmt{K: "cmd", Toks: []string{cmd, "@inl0", ",", "7", ",", "@inl1"}, Inl: []Inline{comp, in}})
 				wants = append(wants, want{cmd: cmd, it: it})
 			case "textstmt", "format":
 				f.Tops = append(f.Tops, Top{K: "text", Name: name, Text: &TextLit{Parts: it.parts, Type: it.typ, IsFmt: it.origin == "format"}})
@@ -169,7 +176,7 @@ func checkC09(c *Ctx) {
 		for _, ln := range pa.Lines {
 			if ln["k"] == "ins" {
 				if a := ln["a"].([]string); len(a) >= 1 {
-					cmdArg[ln["op"].(string)] = a[0]
+					cmdArg[ln["op"].(string)] = a[len(a)-1] // the text under test is the last argument
 				}
 			}
 		}
@@ -373,6 +380,24 @@ func checkC14(c *Ctx) {
 						sib[k].Mul = fmt.Sprint(v - 1)
 					}
 					body = append(body, Stmt{K: "cmd", Toks: []string{"mvA", "OBJ", ",", "@inl0"}, Inl: []Inline{{Kind: "moves", Steps: sib}}})
+					// and one in which "step * n" is a single step whose name ends in the digits of n
+					var sib2 []ListItem
+					changed := false
+					for _, it := range items {
+						if it.PS != nil {
+							continue
+						}
+						v, okm := mulValue(it.Mul)
+						if !changed && okm && it.Mul != "" && v >= 2 {
+							sib2 = append(sib2, ListItem{Name: it.Name + fmt.Sprint(v)})
+							changed = true
+						} else {
+							sib2 = append(sib2, ListItem{Name: it.Name, Mul: it.Mul})
+						}
+					}
+					if changed {
+						body = append(body, Stmt{K: "cmd", Toks: []string{"mvC", "OBJ", ",", "@inl0"}, Inl: []Inline{{Kind: "moves", Steps: sib2}}})
+					}
 				}
 				body = append(body, Stmt{K: "cmd", Toks: []string{"mvB", "OBJ", ",", "@inl0"}, Inl: []Inline{{Kind: "moves", Steps: items}}})
 				f.Tops = []Top{{K: "script", Name: "S", Body: body}}
